@@ -262,6 +262,10 @@ impl CpuState {
                 Some(*rng.pick(&EDGE))
             } else if rng.chance(1, 16) {
                 Some(*rng.pick(&[s.bc, s.de, s.hl, s.ix, s.iy, s.sp]))
+            } else if rng.chance(1, 16) {
+                // neighbours: the overlapping block copy (DE = HL + 1), a stack next to a table, ...
+                let base = *rng.pick(&[s.bc, s.de, s.hl, s.sp]);
+                Some(base.wrapping_add(*rng.pick(&[1u16, 0xFFFF, 2, 0xFFFE])))
             } else {
                 None
             };
